@@ -26,8 +26,11 @@ impl StrLike for &String { open spec fn str_view(&self) -> Seq<char> { (**self)@
 impl StrLike for &str { open spec fn str_view(&self) -> Seq<char> { (*self)@ } }
 impl StrLike for Addr { open spec fn str_view(&self) -> Seq<char> { self.s@ } }
 impl StrLike for &Addr { open spec fn str_view(&self) -> Seq<char> { self.s@ } }
+impl From<Addr> for String { #[verifier::external_body] fn from(a: Addr) -> (r: String) { unimplemented!() } }
 pub uninterp spec fn mk_string(s: Seq<char>) -> String;
 pub broadcast axiom fn ax_mk_string(s: Seq<char>) ensures #[trigger] mk_string(s)@ == s;
+/// D8 target: `x.into()` for `x: impl Into<String>` (String, &str, Addr): the same characters
+#[verifier::external_body] pub fn verif_into_string<T: Into<String> + StrLike>(t: T) -> (r: String) ensures r@ == t.str_view() { unimplemented!() }
 #[verifier::external_body] pub fn str_to_string(s: &str) -> (r: String) ensures r@ == s@ { unimplemented!() }
 
 // ---------- serialisation ----------
